@@ -469,8 +469,8 @@ def run_hp_copy(ctx):
         c = json.load(open(f)); cases.append({k: c[k] for k in ("id", "cfg", "threads", "sched")})
     # the same scenario with the switch points moved around (robust against small changes of the step counts)
     for pre in (9, 10, 11):
-        for n in range(60, 78):
-            cases.append({"id": "hpc_%d_%d" % (pre, n), "cfg": [0], "threads": [[[9, 2]], [[4, 1], [20, 11]]],
+        for n in range(62, 80):
+            cases.append({"id": "hpc_%d_%d" % (pre, n), "cfg": [0], "threads": [[[9, 2]], [[4, 1], [20, 0]]],
                           "sched": [0] * pre + [1] * n + [0] * 6 + [1] * 60 + [0] * 80})
     rc, logs, raw = run_shard(ctx, exe, cases, "hp_copy")
     hits = 0
@@ -588,4 +588,7 @@ def run(ctx):
     ctx.coverage.update(hpinfo)
     return ctx.finish(vcheck.STD_TRUSTED + ["hook layer: khizmax_libcds_verif::atomic<T>, baton scheduler, event log (hooks/include)", "ocaml/lincheck_main.ml (text parser around the verified lincheck)", "harness/C13 adapters: translation of each API call into the spec vocabulary (`sp` records)"],
                       ["sequential consistency: memory_order arguments are not modelled", "compare_exchange_weak never fails spuriously under the hook",
-                       "observable correspondence is sampling (every history sampled is decided exactly by the verified lincheck)"])
+                       "smr_safe (DESIGN 4): the step models allocate node / item ids from never-reusing allocators; that no node is recycled while a guard can reach it is the conclusion of the C01 theorems, not of C13 (and the open known finding hp-guard-copy-downward-michael-search shows a schedule of the real cds::gc::HP in which it fails for MichaelList::search)",
+                       "theorems (sorted / no duplicate key at every step, full linearizability incl. reads, for every schedule) cover the step model of cds::intrusive::MichaelList<gc::HP>; LazyList<HP> and IterableList<HP> have step models tied by correspondence but no invariant proof (lazy_sorted_nodup_statement, iter_sorted_nodup_statement); every other variant: observable correspondence only",
+                       "step and observable correspondence are sampling (every history sampled is decided exactly by the verified lincheck)",
+                       "a failed unlink( val ) is not an operation of the sequential set (it fails also when the list holds another item with that key): skipped in histories, its result checked directly (an item that was never linked must not be unlinked)"])
